@@ -33,7 +33,7 @@ RULE = ("Hypothesis: full type grammar x a value built from the type and then hi
         "structural induction down to depth 6. Non-trivial = at least two failing positions, or a failure under a union, or "
         "missing/extra/duplicate present; distinct by (type spec, value).")
 ASSUMPTIONS = [
-    "homogeneous-mapping children are keyed by str(key); two keys with the same str() are an unspecified cell",
+    "homogeneous-mapping children are keyed by the key itself for str / int keys and by str(key) for other kinds; two keys of other kinds with the same str() are an unspecified cell",
     "the python field name used as a key when other input names are configured is an unspecified cell",
     "element trees are obtained from pane itself (from_data on the element): this check is about composition, C01 is about verdicts",
 ]
@@ -41,6 +41,10 @@ ASSUMPTIONS = [
 
 class _Skip(Exception):
     pass
+
+
+class _KeyAndValue(Exception):
+    """A mapping entry whose key and value are both rejected on their own: one child slot, two failures (known finding D41)."""
 
 
 def expect_product(tr: t.Any, children: t.Dict[t.Any, t.Any], missing: t.Set[str], extra: t.Set[t.Any], where: str) -> t.Optional[str]:
@@ -101,18 +105,23 @@ def check_node(nd: tg.Node, v: t.Any, tr: t.Any, ctx: Ctx, depth: int = 0, where
     if isinstance(nd, tg.Map):
         if not tg.is_map(v):
             return leaf_actual(v)
-        strs = [str(k) for k in v]
-        if len(set(strs)) != len(strs):
-            raise _Skip('two keys with the same str()')
+        # children are keyed by the key itself where the tree's key type (int | str) can hold it, by str(key) otherwise
+        def ckey(k: t.Any) -> t.Any:
+            return k if type(k) in (str, int) else str(k)
+        cks = [ckey(k) for k in v]
+        if len(set(map(repr, cks))) != len(cks):
+            raise _Skip('two keys of other kinds with the same str()')
         failing: t.Dict[t.Any, t.Any] = {}
         rec: t.List[t.Tuple[tg.Node, t.Any, t.Any, str]] = []
         for (k, x) in v.items():
             ks, vs = own_tree(nd.k, k), own_tree(nd.v, x)
+            if vs is not None and ks is not None:
+                raise _KeyAndValue(k)
             if vs is not None:
-                failing[str(k)] = vs
+                failing[ckey(k)] = vs
                 rec.append((nd.v, x, vs, f"{where}.{k}"))
             elif ks is not None:
-                failing[str(k)] = ks
+                failing[ckey(k)] = ks
                 rec.append((nd.k, k, ks, f"{where}.<key {k}>"))
         if failing:
             m = expect_product(tr, failing, set(), set(), where)
@@ -256,8 +265,8 @@ def check_node(nd: tg.Node, v: t.Any, tr: t.Any, ctx: Ctx, depth: int = 0, where
             return (nd.kind, f"{where}|0: first alternative is not the element type's own tree: {d}")
         return check_node(nd.elem, v, s0, ctx, depth + 1, where + '|0')
 
-    # scalars, literals, enums, subclasses, arrays: leaf (or delegated) - the leaf must record the value
-    if isinstance(nd, (tg.Scalar, tg.Lit)):
+    # scalars, literals, enums, subclasses, arrays: leaf (or delegated) - the leaf must record the value *given*, not a converted copy of it
+    if isinstance(nd, (tg.Scalar, tg.Lit, tg.Enum, tg.Sub)) or nd.kind == 'ndarray':
         return leaf_actual(v)
     return None
 
@@ -281,6 +290,14 @@ def check(case: t.Any, ctx: Ctx) -> None:
         r = check_node(nd, v, tr, ctx)
     except _Skip as e:
         ctx.exclude(str(e))
+        return
+    except _KeyAndValue as e:
+        # the entry has one slot in `children`; the property wants every offending sub-value recorded by a leaf
+        k = e.args[0]
+        from ..errtree import leaf_actuals
+        if not any(same(a, k) is None for a in leaf_actuals(tr)):
+            ctx.fail('compositional', 'mapping:bad-key-and-bad-value', f"T = {nd.render()[:300]}; v = {short(v, 200)}; key {short(k, 60)} and its value are both "
+                     f"rejected on their own, but no leaf of the tree records the key: {short(tr, 200)}")
         return
     except Exception as e:
         from ..core import triage_exception
